@@ -29,6 +29,10 @@ def render(case, cid, variant, rng):
         return PRELUDE + b
     if variant == 'fn':
         return PRELUDE + 'function rm%d {\nrunmode %s function\n%s\n}\nrm%d' % (cid, m, b, cid)
+    if variant == 'nest':
+        # the block's own keyword decides how its body is scheduled, whatever the enclosing function's run mode is
+        other = 'trypipe' if m == 'try' else 'try'
+        return PRELUDE + 'function rn%d {\nrunmode %s function\n%s {\n%s\n}\n}\nrn%d' % (cid, other, m, b, cid)
     return PRELUDE + '%s {\n%s\n}' % (m, b)
 
 
@@ -43,6 +47,26 @@ def expected(case):
             if k == n or p[k]['op'] != '|':
                 out.append('o%d' % k)
     return out, sorted(err)
+
+
+def stderr_in_pipeline_order(case, lines):
+    """Commands of one pipeline run concurrently (their stderr lines may interleave) but a pipeline
+    only starts after the one before it has finished: lines of an earlier pipeline come first."""
+    p = case['prog']
+    group = {}
+    g = 0
+    for k in range(1, len(p) + 1):
+        if k > 1 and p[k - 1]['op'] != '|':
+            g += 1
+        group['e%d' % k] = g
+    last = -1
+    for l in lines:
+        if l not in group:
+            return False
+        if group[l] < last:
+            return False
+        last = group[l]
+    return True
 
 
 def gen_cases(ck, maxlen, modes):
@@ -104,7 +128,8 @@ def run_table(ck, cases, variants, limit=None):
         eo, ee = expected(c)
         go = r['out'].decode('utf-8', 'replace').split('\n')[:-1]
         ge = sorted(r['err'].decode('utf-8', 'replace').split('\n')[:-1])
-        if go != eo or ge != ee or r['exit'] != c['exit']:
+        raw_err = r['err'].decode('utf-8', 'replace').split('\n')[:-1]
+        if go != eo or ge != ee or r['exit'] != c['exit'] or not stderr_in_pipeline_order(c, raw_err):
             ck.violation('case:%s:%s' % (v, pk),
                          'program [%s] variant %s: ran %s exit %d; rule: ran %s exit %d' % (pk, v, go + ge, r['exit'], eo + ee, c['exit']),
                          {'src': src, 'mode': c['mode'], 'stdout': go, 'stderr': ge, 'exit': r['exit'],
